@@ -169,10 +169,11 @@ def r_conv(ctx):
                             ok_div = _radix_ok(bs, radix)
                             why = 'divides by %s' % show(bs)
                             wit_div = bs is not None and bs[0] == 'c' and not ok_div
-                        if arm == 'integer' and is_call(c, 'builtins.divmod') and len(c[2]) == 2:
-                            ok_div = _radix_ok(c[2][1], radix)
-                            why = 'divides by %s' % show(c[2][1])
-                            wit_div = c[2][1][0] == 'c' and not ok_div
+                    if e.kind == 'def' and arm == 'integer' and e.term[0] == 'bin' and e.term[1] == '//' and \
+                            e.term[2][0] == 'v' and e.term[2][1] == e.name:
+                        ok_div = _radix_ok(e.term[3], radix)        # n, r = divmod(n, R)
+                        why = 'divides by %s' % show(e.term[3])
+                        wit_div = e.term[3][0] == 'c' and not ok_div
                     if e.kind == 'insert':
                         ok_front = e.term[0] == ('c', 0)
                         digit = e.term[1]
